@@ -71,7 +71,15 @@ func VerifC07Replica() {
 	before := verifTreeDigest(w.dir)
 	var opErr error
 	wantReadOnly := true
-	switch rt.Choose("op", 9) {
+	noop := false
+	switch rt.Choose("op", 10) {
+	case 9:
+		// truncation of the database file (Setattr through the mount): any size; only the current size,
+		// which changes nothing, may be accepted
+		size := int64([]int{0, verifP, 2 * verifP, 3 * verifP, verifP + 100}[rt.Choose("truncate.size", 5)])
+		opErr = db.TruncateDatabase(ctx, size)
+		wantReadOnly = false
+		noop = size == int64(db.PageN())*verifP
 	case 0:
 		off := int64(rt.Choose("page", 3)) * verifP
 		opErr = db.WriteDatabaseAt(ctx, dbf, rt.Bytes("w", verifP), off, 1)
@@ -101,7 +109,7 @@ func VerifC07Replica() {
 	case 8:
 		opErr = db.CommitJournal(ctx, JournalModePersist)
 	}
-	rt.Check(opErr != nil, "a node without write authority refuses the operation")
+	rt.Check(opErr != nil || noop, "a node without write authority refuses the operation")
 	if wantReadOnly {
 		rt.Check(errors.Is(opErr, ErrReadOnlyReplica), "refused with the read-only-replica error")
 	}
